@@ -54,12 +54,14 @@ pub fn build(sk: &Value, r: &mut Rng, explicit_only: bool) -> Built {
     for (k, i) in ins.iter().enumerate() {
         let a = i["asset"].as_str().unwrap();
         let v = i["v"].as_u64().unwrap() * scales[a];
-        let conf = i["conf"].as_bool().unwrap_or(false);
-        let (abf, vbf) = if conf { (pools::abf(r), pools::vbf(r)) } else { (AssetBlindingFactor::zero(), ValueBlindingFactor::zero()) };
+        // mode of the spent output: "expl", "full", "value" (value committed under the unblinded generator), "asset" (explicit value, blinded generator)
+        let mode = i["mode"].as_str().unwrap_or(if i["conf"].as_bool().unwrap_or(false) { "full" } else { "expl" });
+        let abf = if mode == "full" || mode == "asset" { pools::abf(r) } else { AssetBlindingFactor::zero() };
+        let vbf = if mode == "full" || mode == "value" { pools::vbf(r) } else { ValueBlindingFactor::zero() };
         let id = assets[a];
         utxos.push(TxOut {
-            asset: if conf { Asset::new_confidential(secp, id, abf) } else { Asset::Explicit(id) },
-            value: if conf { CValue::new_confidential_from_assetid(secp, v, id, vbf, abf) } else { CValue::Explicit(v) },
+            asset: if mode == "full" || mode == "asset" { Asset::new_confidential(secp, id, abf) } else { Asset::Explicit(id) },
+            value: if mode == "full" || mode == "value" { CValue::new_confidential_from_assetid(secp, v, id, vbf, abf) } else { CValue::Explicit(v) },
             nonce: Nonce::Null,
             script_pubkey: p2wpkh(r),
             witness: Default::default(),
@@ -111,7 +113,9 @@ pub fn build(sk: &Value, r: &mut Rng, explicit_only: bool) -> Built {
         let unspendable = o["burn"].as_bool().unwrap_or(false) || o["script"].as_str() == Some("unspendable");
         let fee = o["fee"].as_bool().unwrap_or(false);
         let marked = o["marked"].as_bool().unwrap_or(false);
-        let script = if fee { Script::new() } else if unspendable { Script::from(vec![0x6a, 0x01, 0x42]) } else { p2wpkh(r) };
+        let script = if fee || o["script"].as_str() == Some("empty") { Script::new() } else if unspendable { Script::from(vec![0x6a, 0x01, 0x42]) }
+                     else if o["script"].as_str() == Some("big10000") { Script::from(vec![0x51u8; 10_000]) }
+                     else if o["script"].as_str() == Some("big10001") { Script::from(vec![0x51u8; 10_001]) } else { p2wpkh(r) };
         let nonce = if marked {
             let skey = pools::secret_key(r);
             receivers.insert(k, skey);
@@ -125,7 +129,7 @@ pub fn build(sk: &Value, r: &mut Rng, explicit_only: bool) -> Built {
 }
 
 fn sk_class(sk: &Value) -> String {
-    let ins: Vec<String> = sk["ins"].as_array().unwrap().iter().map(|i| format!("{}{}", i["asset"].as_str().unwrap(), if i["conf"] == true { "c" } else { "e" })).collect();
+    let ins: Vec<String> = sk["ins"].as_array().unwrap().iter().map(|i| format!("{}{}", i["asset"].as_str().unwrap(), match i["mode"].as_str().unwrap_or(if i["conf"] == true { "full" } else { "expl" }) { "full" => "c", "value" => "v", "asset" => "a", _ => "e" })).collect();
     let outs: Vec<String> = sk["outs"].as_array().unwrap().iter().map(|o| format!("{}{}", o["asset"].as_str().unwrap(), if o["fee"] == true { "f" } else if o["marked"] == true { match o["want"].as_str().unwrap_or("full") { "value" => "v", "asset" => "a", _ => "m" } } else if o["burn"] == true { "0" } else { "u" })).collect();
     let iss = if sk["iss_on"].as_u64().unwrap_or(0) > 0 {
         format!("+iss({}{},{}{})", if sk["iss_v"].as_u64().unwrap_or(0) > 0 { "amt" } else { "null" }, if sk["iss_vc"] == true { "*" } else { "" },
@@ -307,17 +311,15 @@ fn apply_tamper(t: &Value, tx: &mut Transaction, utxos: &mut Vec<TxOut>, b: &Bui
             CValue::Null => {} } } }
         "utxo_value" => { utxos[k - 1].value = match utxos[k - 1].value { CValue::Explicit(x) => CValue::Explicit(x + 1), _ => pools::conf_value(r) }; }
         "utxo_asset" => {
-            // a spent output of the other asset: for a confidential one both commitments are re-made for that asset
+            // a spent output of the other asset: every commitment it carries is re-made for that asset
             // (replacing the generator alone leaves the value commitment, and hence the balance, untouched)
             let s = b.secrets_of_input(k - 1);
             let other = if s.asset == b.assets["A"] { b.assets["B"] } else { b.assets["A"] };
-            match utxos[k - 1].asset {
-                Asset::Explicit(_) => utxos[k - 1].asset = Asset::Explicit(other),
-                _ => { utxos[k - 1].asset = Asset::new_confidential(secp, other, s.asset_bf); utxos[k - 1].value = CValue::new_confidential_from_assetid(secp, s.value, other, s.value_bf, s.asset_bf); }
-            }
+            if utxos[k - 1].asset.is_explicit() { utxos[k - 1].asset = Asset::Explicit(other); } else { utxos[k - 1].asset = Asset::new_confidential(secp, other, s.asset_bf); }
+            if utxos[k - 1].value.is_confidential() { utxos[k - 1].value = CValue::new_confidential_from_assetid(secp, s.value, other, s.value_bf, s.asset_bf); }
         }
         "utxo_vbf" => { let s = b.secrets_of_input(k - 1); utxos[k - 1].value = CValue::new_confidential_from_assetid(secp, s.value, s.asset, pools::vbf(r), s.asset_bf); }
-        "utxo_abf" => { let s = b.secrets_of_input(k - 1); let abf = pools::abf(r); utxos[k - 1].asset = Asset::new_confidential(secp, s.asset, abf); utxos[k - 1].value = CValue::new_confidential_from_assetid(secp, s.value, s.asset, s.value_bf, abf); }
+        "utxo_abf" => { let s = b.secrets_of_input(k - 1); let abf = pools::abf(r); utxos[k - 1].asset = Asset::new_confidential(secp, s.asset, abf); if utxos[k - 1].value.is_confidential() { utxos[k - 1].value = CValue::new_confidential_from_assetid(secp, s.value, s.asset, s.value_bf, abf); } }
         "utxo_drop_last" => { utxos.pop(); }
         "utxo_extra" => { let u = utxos[0].clone(); utxos.push(u); }
         x => panic!("tamper kind {}", x),
@@ -458,7 +460,7 @@ fn explicit_case(ci: usize, c: &Value, seed: u64, bad: &mut Vec<(String, Value, 
         Err(p) => bad.push((format!("C05/panic/{}", last_panic_loc()), case, p)),
         Ok(got) => {
             if got.is_ok() != (verdict == "OK") {
-                let zero_unsp = c["outs"].as_array().unwrap().iter().any(|o| o["v"] == 0 && o["script"] == "unspendable");
+                let zero_unsp = c["outs"].as_array().unwrap().iter().any(|o| o["v"] == 0 && (o["script"] == "unspendable" || o["script"] == "empty" || o["script"] == "big10001"));
                 let key = if verdict == "OK" { format!("C05/explicit/balanced-rejected{}", if zero_unsp { "/zero-value-on-unspendable-script" } else { "" }) } else { format!("C05/explicit/unbalanced-accepted/{}", verdict) };
                 bad.push((key, case, format!("library {:?}, specification {}", got, verdict)));
             }
